@@ -60,7 +60,8 @@ type c18Case struct {
 
 func (c c18Case) String() string { return fmt.Sprintf("%s#%d/N%d/D%d", c.Point, c.Hit, c.N, c.Depth) }
 
-// ---- append-only, synchronous JSON-lines logs (survive os.Exit) ----
+// ---- append-only JSON-lines logs: one unbuffered write(2) per record, which
+// survives os.Exit (the crash model is process exit, not power loss) ----
 
 type jlog struct {
 	mu sync.Mutex
@@ -68,7 +69,7 @@ type jlog struct {
 }
 
 func openJlog(path string) (*jlog, error) {
-	f, err := os.OpenFile(path, os.O_APPEND|os.O_CREATE|os.O_WRONLY|os.O_SYNC, 0o644)
+	f, err := os.OpenFile(path, os.O_APPEND|os.O_CREATE|os.O_WRONLY, 0o644)
 	if err != nil {
 		return nil, err
 	}
@@ -196,7 +197,7 @@ func c18ChildA(t *testing.T) {
 		os.Exit(3)
 	}
 
-	childWatchdog(150*time.Second, func(st string) { ev.add(c18Event{Ev: "error", Msg: "A: watchdog, goroutines:\n" + st}) })
+	childWatchdog(6*time.Minute, func(st string) { ev.add(c18Event{Ev: "error", Msg: "A: watchdog, goroutines:\n" + st}) })
 
 	// Hook handler: gate at processAccept entry (one token per block, handed out
 	// by the driver), "processed" signal after the notifications, exit at (P,k).
@@ -242,8 +243,8 @@ func c18ChildA(t *testing.T) {
 	waitProcessed := func(h int) {
 		select {
 		case <-processed:
-		case <-time.After(90 * time.Second):
-			fail("A: block %d not processed 90 s after its token was released (watchdog)", h)
+		case <-time.After(4 * time.Minute):
+			fail("A: block %d not processed 4 min after its token was released (watchdog)", h)
 		}
 	}
 	for i := 1; i <= n; i++ {
@@ -312,7 +313,7 @@ func c18ChildB(t *testing.T) {
 	dir := os.Getenv("C18_DIR")
 	ctx := context.Background()
 	rep := nodeReport{}
-	childWatchdog(150*time.Second, func(st string) { fmt.Println("B: watchdog, goroutines:\n" + st) })
+	childWatchdog(6*time.Minute, func(st string) { fmt.Println("B: watchdog, goroutines:\n" + st) })
 	start := time.Now()
 	nd, initErr, initPanic := c18Node(t, dir, "b")
 	rep.InitMillis = time.Since(start).Milliseconds()
@@ -437,7 +438,7 @@ func runC18Case(t *testing.T, r *kit.Run, c c18Case, genesisBytes []byte) {
 		"C18_DIR=" + dir, "C18_POINT=" + c.Point, "C18_HIT=" + strconv.Itoa(c.Hit),
 		"C18_N=" + strconv.Itoa(c.N), "C18_DEPTH=" + strconv.Itoa(c.Depth), "GOMAXPROCS=4",
 	}
-	resA := kit.RunChild("TestC18Child", append([]string{"VERIF_CHILD=c18a"}, env...), 4*time.Minute)
+	resA := kit.RunChild("TestC18Child", append([]string{"VERIF_CHILD=c18a"}, env...), 8*time.Minute)
 	events := readJSONLines[c18Event](filepath.Join(dir, "events.log"))
 	w := &c18Witness{Case: c, AExit: resA.ExitCode}
 	built := map[uint64]c18Event{}
@@ -478,7 +479,7 @@ func runC18Case(t *testing.T, r *kit.Run, c c18Case, genesisBytes []byte) {
 	r.Count("accepts_returned_before_crash", int(w.LastRet))
 	r.Count("accepts_started_before_crash", int(w.LastStart))
 
-	resB := kit.RunChild("TestC18Child", append([]string{"VERIF_CHILD=c18b"}, env...), 4*time.Minute)
+	resB := kit.RunChild("TestC18Child", append([]string{"VERIF_CHILD=c18b"}, env...), 8*time.Minute)
 	if resB.TimedOut || resB.ExitCode == 4 {
 		if path := os.Getenv("VERIF_C18_KEEP"); path != "" {
 			_ = os.WriteFile(filepath.Join(path, "c18-B-"+strings.ReplaceAll(c.String(), "/", "_")+".txt"), []byte(resB.Output), 0o644)
@@ -636,7 +637,7 @@ func TestC18(t *testing.T) {
 	}
 	cfgs := []cfg{{4, []int{1, 2}}}
 	if r.Thorough() {
-		cfgs = []cfg{{8, []int{1, 2, 3, 5, 7}}, {12, []int{2, 11}}}
+		cfgs = []cfg{{8, []int{1, 2, 3, 5, 7}}, {12, []int{11}}}
 	}
 	genesisBytes, err := c18Genesis()
 	if err != nil {
